@@ -230,6 +230,7 @@ def parse_output(run, out):
                     g.setdefault('sync', []).append(int(f[3]) if len(f) > 3 else 0)
             for x in a[6:]:
                 if x.startswith('lsc='): g['lsc'] = int(x[4:])
+                elif x.startswith('queue='): g['queue'] = [tuple(t.split(':')) for t in x[6:].split(',') if t]
             run.groups.append(g)
         elif c in 'AE' and (ln.startswith('A ') or ln.startswith('E ')):
             run.abs.append(ln)
@@ -665,6 +666,27 @@ def check_group_sync(run, sc, stats):
         if nxt <= g['lsc']:
             problems.append({'kind': 'sync-write-acknowledged-without-log-fsync', 'group': i, 'leader': g['leader'], 'members': g['members'],
                              'sync_flags': g.get('sync'), 'log_fsyncs_before': g['lsc'], 'log_fsyncs_at_next_group': nxt})
+    return problems
+
+def check_group_model(run, model_exe, stats):
+    """Every group commit observed (the writer queue as the leader saw it: batch sizes, sync flags, flush requests)
+    is replayed on the model of ldb_build_batch_group (Group.v): the members merged must be the model's."""
+    problems = []
+    gs = [g for g in run.groups if g.get('queue')]
+    if not gs or not model_exe: return problems
+    lines = ['group_case ' + ','.join('%s:%s:%s' % (sz, sy, b) for (t, sz, sy, b) in g['queue']) for g in gs]
+    outs = vlib.run_lines(model_exe, lines)
+    for g, o in zip(gs, outs):
+        stats['groups_vs_model'] = stats.get('groups_vs_model', 0) + 1
+        try: n = int(o.split(' ')[0].split('=')[1])
+        except Exception:
+            problems.append({'kind': 'group-model-error', 'detail': o[:200]}); continue
+        want = [int(t) for (t, sz, sy, b) in g['queue'][:n] if b == '1']
+        got = [m[0] for m in g['members']]
+        if len(want) > 1: stats['groups_vs_model_multi'] = stats.get('groups_vs_model_multi', 0) + 1
+        if want != got:
+            problems.append({'kind': 'group-differs-from-model', 'queue': g['queue'], 'merged_by_implementation': got, 'merged_by_model': want,
+                             'detail': 'ldb_build_batch_group merged writers %s; the model of the selection rule (sync rule + size cap) merges %s' % (got, want)})
     return problems
 
 def check_c08_run(run, sc, stats):
